@@ -784,3 +784,792 @@ pub fn c06(tier: &str, out: Option<&Path>) -> i32 {
         out,
     )
 }
+
+// ---------------------------------------------------------------------------
+// C11: a single-slot allocator finds every free base frame without draining
+// ---------------------------------------------------------------------------
+
+pub fn c11(tier: &str, out: Option<&Path>) -> i32 {
+    use crate::common::{ClassingSpec, Config, ErrKind, InitMode, Op, PolicyKind, Res, Sut};
+    use llfree::{HUGE_FRAMES, TREE_FRAMES, TreeId};
+    let t0 = Instant::now();
+    let thorough = tier == "thorough";
+    let col = Mutex::new(Collector::default());
+    let evals = AtomicU64::new(0);
+    let histories = AtomicU64::new(0);
+    let specs = vec![
+        ClassingSpec::custom("single[(0,1)]", &[(0, 1)], 0, PolicyKind::Simple),
+        ClassingSpec::simple(1),
+        ClassingSpec::movable(1),
+    ];
+    let tree_counts: Vec<usize> = if thorough { vec![2, 3, 4] } else { vec![2, 3] };
+    let mut jobs = vec![];
+    for spec in &specs {
+        for &t in &tree_counts {
+            jobs.push((spec.clone(), t * TREE_FRAMES));
+        }
+    }
+    // partial last tree
+    jobs.push((specs[0].clone(), 2 * TREE_FRAMES + HUGE_FRAMES / 2 + 3));
+    let k_other = if thorough { 5 } else { 3 };
+    par_for(jobs.len(), |j| {
+        let (spec, n) = &jobs[j];
+        let cfg = Config::new(*n, spec.clone(), InitMode::FreeAll);
+        let sut = Sut::new(&cfg);
+        let get = Op::Get {
+            order: 0,
+            class: 0,
+            local: Some(0),
+            target: None,
+        };
+        // exhaust
+        let mut count = 0;
+        while let Res::Got(..) = sut.apply(&get) {
+            count += 1;
+        }
+        let mut ev = count as u64;
+        if count != *n {
+            col.lock().unwrap().add(
+                Violation::new(
+                    "C11",
+                    "exhaustion through the single slot stopped early",
+                    format!("{}: {count} of {n} frames allocated", cfg.describe()),
+                ),
+                || json!({"engine": "dom", "check": "C11", "config": cfg.json(), "history": "fill"}),
+            );
+            evals.fetch_add(ev, Ordering::Relaxed);
+            return;
+        }
+        // which tree does the slot hold?
+        let reserved: Vec<usize> = (0..cfg.trees())
+            .filter(|&t| sut.alloc.trees.stats_at(TreeId(t)).2)
+            .collect();
+        let rt = reserved.first().copied().unwrap_or(0);
+        let rstart = rt * TREE_FRAMES;
+        let rend = ((rt + 1) * TREE_FRAMES).min(*n);
+        // candidates: five in the reserved tree (first, last, same row, same huge, other huge)
+        let mut cands: Vec<usize> = vec![rstart, rstart + 1, rstart + 70, rend - 1];
+        if rend - rstart > HUGE_FRAMES {
+            cands.push(rstart + HUGE_FRAMES + 5);
+        } else {
+            cands.push(rstart + 200);
+        }
+        // others: first / last / middle of other trees
+        let mut others = vec![];
+        for t in 0..cfg.trees() {
+            if t == rt {
+                continue;
+            }
+            let s = t * TREE_FRAMES;
+            let e = ((t + 1) * TREE_FRAMES).min(*n);
+            others.push(s);
+            others.push(e - 1);
+            others.push(s + (e - s) / 2);
+        }
+        others.truncate(k_other);
+        cands.extend(others);
+        cands.retain(|&f| f < *n);
+        cands.sort();
+        cands.dedup();
+        let k = cands.len();
+        let base = sut.bufs.snapshot();
+        let total = 3usize.pow(k as u32);
+        for code in 0..total {
+            sut.bufs.restore(&base);
+            let mut c = code;
+            let mut freed = 0usize;
+            let mut hist = vec![];
+            for &f in &cands {
+                let mode = c % 3;
+                c /= 3;
+                if mode == 0 {
+                    continue;
+                }
+                let put = Op::Put {
+                    frame: f,
+                    order: 0,
+                    class: 0,
+                    local: if mode == 1 { Some(0) } else { None },
+                };
+                let r = sut.apply(&put);
+                ev += 1;
+                if r != Res::Done {
+                    col.lock().unwrap().add(
+                        Violation::new("C02", "free of an allocated frame failed", format!("{} -> {}", put.short(), r.short())),
+                        || json!({"engine": "dom", "check": "C11", "config": cfg.json()}),
+                    );
+                }
+                hist.push(put);
+                freed += 1;
+            }
+            let mut got = 0usize;
+            let mut bad = None;
+            loop {
+                ev += 1;
+                match sut.apply(&get) {
+                    Res::Got(f, _) => {
+                        if !cands.contains(&f) {
+                            bad = Some(f);
+                            break;
+                        }
+                        got += 1;
+                        if got > freed {
+                            break;
+                        }
+                    }
+                    Res::Err(ErrKind::Memory) => break,
+                    _ => break,
+                }
+            }
+            if got != freed || bad.is_some() {
+                let shape = format!(
+                    "{} freed through the slot, {} without",
+                    hist.iter().filter(|o| matches!(o, Op::Put { local: Some(_), .. })).count(),
+                    hist.iter().filter(|o| matches!(o, Op::Put { local: None, .. })).count()
+                );
+                col.lock().unwrap().add(
+                    Violation::new(
+                        "C11",
+                        "allocation through the single slot failed although a frame is free",
+                        format!(
+                            "{}: after exhaustion and frees [{}] ({shape}) only {got} of {freed} allocations succeeded (unexpected frame: {bad:?})",
+                            cfg.describe(),
+                            hist.iter().map(|o| o.short()).collect::<Vec<_>>().join("; ")
+                        ),
+                    ),
+                    || json!({"engine": "dom", "check": "C11", "config": cfg.json(),
+                        "frees": hist.iter().map(|o| o.json()).collect::<Vec<_>>()}),
+                );
+            }
+        }
+        histories.fetch_add(total as u64, Ordering::Relaxed);
+        evals.fetch_add(ev, Ordering::Relaxed);
+    });
+    dom_finish(
+        "C11",
+        tier,
+        t0,
+        evals.load(Ordering::Relaxed),
+        histories.load(Ordering::Relaxed),
+        "per configuration: exhaust memory through slot 0 (order 0, class 0), then every assignment of {keep, free through the slot, free without slot} to 8-10 structurally chosen frames (5 in the slot's reserved tree: first, second, another row, last, another huge frame; the rest first/last/middle of other trees), then allocate until out of memory: successes must equal frees. distinct_nontrivial = number of histories",
+        vec![json!({"frames": 2 * TREE_FRAMES, "classing": "single[(0,1)]", "assignment": "3^k codes, e.g. [free@slot, keep, free no slot, ...]"})],
+        json!({"configurations": jobs.len(), "histories": histories.load(Ordering::Relaxed)}),
+        vec!["'any subset' is every assignment over a structurally chosen candidate set, not every subset of all frames".into()],
+        col.into_inner().unwrap(),
+        out,
+    )
+}
+
+// ---------------------------------------------------------------------------
+// C12: search within one tree finds any aligned free block
+// ---------------------------------------------------------------------------
+
+#[derive(Clone, Debug, PartialEq)]
+enum HugePat {
+    /// allocated as a whole huge frame
+    Whole,
+    /// every frame allocated individually (counter 0, all bits set)
+    AllSmall,
+    Free,
+    /// all allocated except the aligned block `idx` of `order`
+    OnlyBlockFree(usize, usize),
+    /// all free except one frame
+    OnlyBitAllocated(usize),
+    /// bit i set: row i is fully allocated, else entirely free
+    Rows(u8),
+    /// all allocated except two non-buddy half blocks (2j+1, 2j+2) of `order`
+    TwoHalves(usize, usize),
+}
+
+struct TreeLab {
+    sut: crate::common::Sut,
+}
+
+impl TreeLab {
+    fn new() -> Self {
+        use crate::common::{ClassingSpec, Config, InitMode, Sut};
+        let cfg = Config::new(
+            2 * llfree::TREE_FRAMES,
+            ClassingSpec::simple(1),
+            InitMode::AllocAll,
+        );
+        Self { sut: Sut::new(&cfg) }
+    }
+    /// Build the pattern in tree 0 through the lower allocator's own calls
+    fn build(&self, pats: &[HugePat]) {
+        use llfree::{FrameId, HUGE_FRAMES, HUGE_ORDER};
+        let lower = &self.sut.alloc.lower;
+        let row0 = llfree::verif::frame_row(FrameId(0));
+        for (h, p) in pats.iter().enumerate() {
+            let base = h * HUGE_FRAMES;
+            let free_huge = || lower.put(FrameId(base), HUGE_ORDER).expect("free huge");
+            let alloc = |f: usize, o: usize| {
+                lower.get(row0, o, Some(FrameId(f))).expect("targeted lower get");
+            };
+            match p {
+                HugePat::Whole => {}
+                HugePat::Free => free_huge(),
+                HugePat::AllSmall => {
+                    free_huge();
+                    for r in 0..HUGE_FRAMES / 64 {
+                        alloc(base + r * 64, 6);
+                    }
+                }
+                HugePat::OnlyBlockFree(o, idx) => {
+                    free_huge();
+                    for r in 0..HUGE_FRAMES / 64 {
+                        alloc(base + r * 64, 6);
+                    }
+                    lower.put(FrameId(base + idx * (1 << o)), *o).expect("free block");
+                }
+                HugePat::OnlyBitAllocated(x) => {
+                    free_huge();
+                    alloc(base + x, 0);
+                }
+                HugePat::Rows(mask) => {
+                    free_huge();
+                    for r in 0..8.min(HUGE_FRAMES / 64) {
+                        if mask & (1 << r) != 0 {
+                            alloc(base + r * 64, 6);
+                        }
+                    }
+                }
+                HugePat::TwoHalves(o, j) => {
+                    free_huge();
+                    for r in 0..HUGE_FRAMES / 64 {
+                        alloc(base + r * 64, 6);
+                    }
+                    let half = 1usize << (o - 1);
+                    lower.put(FrameId(base + (2 * j + 1) * half), o - 1).expect("half 1");
+                    lower.put(FrameId(base + (2 * j + 2) * half), o - 1).expect("half 2");
+                }
+            }
+        }
+    }
+}
+
+fn c12_probe(
+    lab: &TreeLab,
+    pats: &[HugePat],
+    orders: &[usize],
+    col: &Mutex<Collector>,
+    nontrivial: &mut u64,
+) -> u64 {
+    use llfree::{Alloc, FrameId, TREE_FRAMES, TREE_ORDER};
+    let sut = &lab.sut;
+    let a = &sut.alloc;
+    let base = sut.bufs.snapshot();
+    // model: per frame status of tree 0
+    let status: Vec<bool> = (0..TREE_FRAMES)
+        .map(|f| a.stats_at(FrameId(f), 0).free_frames == 1)
+        .collect();
+    let free_before = a.stats_at(FrameId(0), TREE_ORDER).free_frames;
+    let mut evals = 0;
+    for &order in orders {
+        let len = 1usize << order;
+        let exists = (0..TREE_FRAMES / len).any(|b| status[b * len..(b + 1) * len].iter().all(|&x| x));
+        if exists && (status.iter().filter(|&&x| x).count() > len) {
+            *nontrivial += 1;
+        }
+        for hint in 0..TREE_FRAMES / 64 {
+            sut.bufs.restore(&base);
+            let row = llfree::verif::frame_row(FrameId(hint * 64));
+            let r = crate::common::catch(|| a.lower.get(row, order, None));
+            evals += 1;
+            let mut problem = None;
+            match r {
+                Err(msg) => problem = Some(format!("panicked: {msg}")),
+                Ok(Err(_)) => {
+                    if exists {
+                        problem = Some("failed although an aligned free block exists".to_string());
+                    }
+                }
+                Ok(Ok(f)) => {
+                    let f = f.0;
+                    if f % len != 0 || f + len > TREE_FRAMES {
+                        problem = Some(format!("returned block {f} outside the tree or misaligned"));
+                    } else if !status[f..f + len].iter().all(|&x| x) {
+                        problem = Some(format!("returned block {f} that was not entirely free"));
+                    } else {
+                        // exactly that block flipped
+                        for g in 0..TREE_FRAMES {
+                            let now = a.stats_at(FrameId(g), 0).free_frames == 1;
+                            let want = status[g] && !(g >= f && g < f + len);
+                            if now != want {
+                                problem = Some(format!("block {f}: frame {g} has status free={now}, expected {want}"));
+                                break;
+                            }
+                        }
+                        let free_after = a.stats_at(FrameId(0), TREE_ORDER).free_frames;
+                        if problem.is_none() && free_after + len != free_before {
+                            problem = Some(format!("counters moved by {} instead of {len}", free_before - free_after));
+                        }
+                    }
+                }
+            }
+            if let Some(pr) = problem {
+                col.lock().unwrap().add(
+                    Violation::new(
+                        "C12",
+                        if pr.contains("failed although") {
+                            "directed allocation failed although the tree contains an aligned free block".to_string()
+                        } else {
+                            "directed allocation marked something else than exactly one free block".to_string()
+                        },
+                        format!("pattern {pats:?} order {order} row hint {hint}: {pr}"),
+                    ),
+                    || json!({"engine": "dom", "check": "C12", "pattern": format!("{pats:?}"), "order": order, "hint": hint}),
+                );
+                return evals;
+            }
+        }
+    }
+    sut.bufs.restore(&base);
+    evals
+}
+
+pub fn c12(tier: &str, out: Option<&Path>) -> i32 {
+    use llfree::{HUGE_FRAMES, HUGE_ORDER, TREE_HUGE, TREE_ORDER};
+    let t0 = Instant::now();
+    let thorough = tier == "thorough";
+    let col = Mutex::new(Collector::default());
+    let evals = AtomicU64::new(0);
+    let nontrivial = AtomicU64::new(0);
+    let patterns = AtomicU64::new(0);
+    let all_orders: Vec<usize> = (0..=TREE_ORDER).collect();
+    // job list: (family, params)
+    #[derive(Clone)]
+    enum Job {
+        Single(usize, usize, bool), // order, huge index, others AllSmall?
+        Frag(usize, usize),
+        Rows(usize),                // huge index, all 256 row masks
+        HugeLevel(usize),           // code over {Whole, AllSmall, Free, Rows(0x55)}^TREE_HUGE
+        Bit(usize),
+    }
+    let mut jobs: Vec<Job> = vec![];
+    for o in 0..HUGE_ORDER {
+        for h in 0..TREE_HUGE {
+            if !thorough && h != 0 && h != TREE_HUGE - 1 {
+                continue;
+            }
+            jobs.push(Job::Single(o, h, false));
+            if thorough || o % 3 == 0 {
+                jobs.push(Job::Single(o, h, true));
+            }
+        }
+    }
+    for o in 1..HUGE_ORDER {
+        jobs.push(Job::Frag(o, 0));
+        if TREE_HUGE > 1 {
+            jobs.push(Job::Frag(o, TREE_HUGE - 1));
+        }
+    }
+    for h in 0..TREE_HUGE {
+        if thorough || h == 0 || h == TREE_HUGE - 1 {
+            jobs.push(Job::Rows(h));
+        }
+    }
+    let hl = 4usize.pow(TREE_HUGE.min(4) as u32);
+    for code in 0..hl {
+        jobs.push(Job::HugeLevel(code));
+    }
+    for h in 0..TREE_HUGE {
+        jobs.push(Job::Bit(h));
+    }
+    par_for(jobs.len(), |ji| {
+        let lab = TreeLab::new();
+        let fresh = lab.sut.bufs.snapshot();
+        let mut ev = 0u64;
+        let mut nt = 0u64;
+        let mut np = 0u64;
+        let mut run = |pats: Vec<HugePat>, orders: &[usize]| {
+            lab.sut.bufs.restore(&fresh);
+            lab.build(&pats);
+            ev += c12_probe(&lab, &pats, orders, &col, &mut nt);
+            np += 1;
+        };
+        match jobs[ji].clone() {
+            Job::Single(o, h, small) => {
+                let blocks = HUGE_FRAMES >> o;
+                // every position for small counts, a dense sample of boundary positions otherwise
+                let idxs: Vec<usize> = if blocks <= 64 || thorough {
+                    (0..blocks).collect()
+                } else {
+                    let mut v: Vec<usize> = (0..blocks).filter(|i| {
+                        let per_row = 64 >> o;
+                        let in_row = i % per_row;
+                        in_row == 0 || in_row == per_row - 1 || in_row == per_row / 2 || i % 37 == 0
+                    }).collect();
+                    v.dedup();
+                    v
+                };
+                for idx in idxs {
+                    let mut pats = vec![if small { HugePat::AllSmall } else { HugePat::Whole }; TREE_HUGE];
+                    pats[h] = HugePat::OnlyBlockFree(o, idx);
+                    // probe the exact order, one below and one above
+                    let mut orders = vec![o];
+                    if o > 0 {
+                        orders.push(o - 1);
+                    }
+                    orders.push(o + 1);
+                    run(pats, &orders);
+                }
+            }
+            Job::Frag(o, h) => {
+                let halves = HUGE_FRAMES >> (o - 1);
+                for j in 0..(halves / 2).saturating_sub(1) {
+                    let mut pats = vec![HugePat::AllSmall; TREE_HUGE];
+                    pats[h] = HugePat::TwoHalves(o, j);
+                    run(pats, &[o, o - 1]);
+                }
+            }
+            Job::Rows(h) => {
+                for mask in 0..=255u8 {
+                    let mut pats = vec![HugePat::Whole; TREE_HUGE];
+                    pats[h] = HugePat::Rows(mask);
+                    let mut orders = vec![0, 5, 6, 7, 8, HUGE_ORDER];
+                    orders.retain(|&o| o <= TREE_ORDER);
+                    run(pats, &orders);
+                }
+            }
+            Job::HugeLevel(code) => {
+                let mut c = code;
+                let mut pats = vec![];
+                for _ in 0..TREE_HUGE.min(4) {
+                    pats.push(match c % 4 {
+                        0 => HugePat::Whole,
+                        1 => HugePat::AllSmall,
+                        2 => HugePat::Free,
+                        _ => HugePat::Rows(0x55),
+                    });
+                    c /= 4;
+                }
+                while pats.len() < TREE_HUGE {
+                    pats.push(HugePat::Whole);
+                }
+                run(pats, &all_orders);
+            }
+            Job::Bit(h) => {
+                for x in [0usize, 1, 63, 64, 255, 256, HUGE_FRAMES - 1] {
+                    let mut pats = vec![HugePat::Whole; TREE_HUGE];
+                    pats[h] = HugePat::OnlyBitAllocated(x);
+                    run(pats, &all_orders);
+                }
+            }
+        }
+        evals.fetch_add(ev, Ordering::Relaxed);
+        nontrivial.fetch_add(nt, Ordering::Relaxed);
+        patterns.fetch_add(np, Ordering::Relaxed);
+    });
+    dom_finish(
+        "C12",
+        tier,
+        t0,
+        evals.load(Ordering::Relaxed),
+        patterns.load(Ordering::Relaxed),
+        "tree patterns built through the lower allocator's own calls from allocate-all: (a) exactly one aligned block of order o free at every position, other huge entries whole-allocated or small-allocated; (b) fragmented: two non-buddy halves free (counter >= 2^o, no aligned block); (c) all 256 full/empty row patterns of one huge frame; (d) every huge-entry combination over {whole, small, free, alternating rows}; (e) single allocated bit; each probed with Lower::get(hint, order, None) from every row hint of the tree. Oracle: fails only if no aligned free block exists; success flips exactly one free block and moves the counters by 2^o. distinct_nontrivial = distinct patterns",
+        vec![json!({"pattern": "[Whole, OnlyBlockFree(3, 17), Whole, Whole]", "order": 3, "hints": "0..32"})],
+        json!({"patterns": patterns.load(Ordering::Relaxed), "pattern_order_pairs_with_a_choice": nontrivial.load(Ordering::Relaxed)}),
+        vec![],
+        col.into_inner().unwrap(),
+        out,
+    )
+}
+
+// ---------------------------------------------------------------------------
+// C08: invalid arguments are rejected without side effects
+// ---------------------------------------------------------------------------
+
+pub fn c08(tier: &str, out: Option<&Path>) -> i32 {
+    use crate::common::{ClassingSpec, Config, ErrKind, GuardBuf, InitMode, Op, Res, Sut};
+    use llfree::wrapper::ZoneAlloc;
+    use llfree::{
+        Alloc, Class, Error, FrameId, HUGE_FRAMES, HUGE_ORDER, Init, LLFree, MetaData, Request,
+        TREE_FRAMES, TREE_ORDER,
+    };
+    let t0 = Instant::now();
+    let thorough = tier == "thorough";
+    let col = Mutex::new(Collector::default());
+    let evals = AtomicU64::new(0);
+    let invalid_calls = AtomicU64::new(0);
+    let specs = vec![
+        ClassingSpec::custom("one[(0,1)]", &[(0, 1)], 0, crate::common::PolicyKind::Simple),
+        ClassingSpec::simple(1),
+        ClassingSpec::movable(2),
+        ClassingSpec::custom("sparse[(1,1),(5,2)]", &[(1, 1), (5, 2)], 1, crate::common::PolicyKind::Simple),
+    ];
+    let frame_counts: Vec<usize> = if thorough {
+        vec![HUGE_FRAMES - 1, TREE_FRAMES, TREE_FRAMES + HUGE_FRAMES + 3, 3 * TREE_FRAMES + 1]
+    } else {
+        vec![TREE_FRAMES, TREE_FRAMES + HUGE_FRAMES + 3]
+    };
+    let mut jobs = vec![];
+    for s in &specs {
+        for &n in &frame_counts {
+            for st in 0..3 {
+                jobs.push((s.clone(), n, st));
+            }
+        }
+    }
+    par_for(jobs.len(), |j| {
+        let (spec, n, st) = &jobs[j];
+        let (n, st) = (*n, *st);
+        let cfg = Config::new(
+            n,
+            spec.clone(),
+            if st == 2 { InitMode::AllocAll } else { InitMode::FreeAll },
+        );
+        let sut = Sut::new(&cfg);
+        let c0 = spec.classes[0].0;
+        if st == 1 {
+            // half used, with a reservation
+            let local = spec.slots(c0).filter(|&s| s > 0).map(|_| 0);
+            for o in [0usize, 0, 3, 6] {
+                let _ = sut.apply(&Op::Get { order: o, class: c0, local, target: None });
+            }
+        }
+        let base = sut.bufs.snapshot();
+        let mut after = Vec::new();
+        let mut ev = 0u64;
+        let mut inv = 0u64;
+        let last = n - 1;
+        for order in 0..=TREE_ORDER + 3 {
+            let len = 1usize << order;
+            let mut frames: Vec<usize> = vec![0, 1, len - 1, len, last, n, n + 1, n.div_ceil(TREE_FRAMES) * TREE_FRAMES];
+            if last > 0 {
+                frames.push(last - 1);
+            }
+            if n >= len {
+                frames.push(n - len);
+                frames.push(n - len + 1);
+                frames.push((n - len) / len * len);
+            }
+            for a in [len, 2 * len, n / 2 / len * len] {
+                for m in [1usize, len / 2, len - 1] {
+                    if m > 0 && m < len {
+                        frames.push(a + m);
+                    }
+                }
+            }
+            if order <= 4 {
+                for m in 1..len {
+                    frames.push(len + m);
+                }
+            }
+            frames.sort();
+            frames.dedup();
+            for class in 0..8u8 {
+                let configured = spec.slots(class).is_some();
+                let mut locals = vec![None];
+                if spec.slots(class).unwrap_or(1) > 0 {
+                    locals.push(Some(0));
+                }
+                for local in locals {
+                    // untargeted get
+                    {
+                        let invalid = order > TREE_ORDER || len > n || !configured;
+                        if invalid {
+                            let op = Op::Get { order, class, local, target: None };
+                            let r = sut.apply(&op);
+                            sut.bufs.snapshot_into(&mut after);
+                            ev += 1;
+                            inv += 1;
+                            if r != Res::Err(ErrKind::Argument) || after != base {
+                                col.lock().unwrap().add(
+                                    Violation::new(
+                                        "C08",
+                                        "invalid allocation not rejected with an argument error and no side effects",
+                                        format!("{}: {} -> {} unchanged={}", cfg.describe(), op.short(), r.short(), after == base),
+                                    ),
+                                    || json!({"engine": "dom", "check": "C08", "config": cfg.json(), "op": op.json(), "state": st}),
+                                );
+                                sut.bufs.restore(&base);
+                            }
+                        }
+                    }
+                    for &f in &frames {
+                        let invalid = order > TREE_ORDER
+                            || f.checked_add(len).is_none_or(|e| e > n)
+                            || f % len != 0
+                            || !configured;
+                        if !invalid {
+                            continue;
+                        }
+                        for put in [false, true] {
+                            let op = if put {
+                                Op::Put { frame: f, order, class, local }
+                            } else {
+                                Op::Get { order, class, local, target: Some(f) }
+                            };
+                            let r = sut.apply(&op);
+                            sut.bufs.snapshot_into(&mut after);
+                            ev += 1;
+                            inv += 1;
+                            if r != Res::Err(ErrKind::Argument) || after != base {
+                                col.lock().unwrap().add(
+                                    Violation::new(
+                                        "C08",
+                                        if put {
+                                            "invalid free not rejected with an argument error and no side effects"
+                                        } else {
+                                            "invalid targeted allocation not rejected with an argument error and no side effects"
+                                        },
+                                        format!("{}: {} -> {} unchanged={}", cfg.describe(), op.short(), r.short(), after == base),
+                                    ),
+                                    || json!({"engine": "dom", "check": "C08", "config": cfg.json(), "op": op.json(), "state": st}),
+                                );
+                                sut.bufs.restore(&base);
+                            }
+                        }
+                    }
+                }
+            }
+        }
+        evals.fetch_add(ev, Ordering::Relaxed);
+        invalid_calls.fetch_add(inv, Ordering::Relaxed);
+    });
+
+    // ---- zone wrapper: frames below the offset
+    {
+        let spec = ClassingSpec::simple(1);
+        let classing = spec.build();
+        let n = TREE_FRAMES + HUGE_FRAMES;
+        for offset in [TREE_FRAMES, 3 * TREE_FRAMES, (1usize << 20) * TREE_FRAMES] {
+            let ms = LLFree::metadata_size(&classing, n);
+            let bufs = crate::common::Bufs::new(&ms, true);
+            let meta = unsafe {
+                MetaData {
+                    local: bufs.local.slice_mut(),
+                    trees: bufs.trees.slice_mut(),
+                    lower: bufs.lower.slice_mut(),
+                }
+            };
+            let zone: ZoneAlloc<LLFree> =
+                ZoneAlloc::create(offset, n, Init::FreeAll, &classing, meta).expect("zone");
+            let base = bufs.snapshot();
+            let mut ev = 0;
+            for order in [0usize, 3, HUGE_ORDER] {
+                let len = 1usize << order;
+                for f in [0usize, len, offset - len, offset - 1, offset / 2 / len * len] {
+                    if f >= offset {
+                        continue;
+                    }
+                    let req = Request::new(order, Class(0), None);
+                    let rg = crate::common::catch(|| zone.get(Some(FrameId(f)), req));
+                    let rp = crate::common::catch(|| zone.put(FrameId(f), req));
+                    let st = crate::common::catch(|| zone.stats_at(FrameId(f), order));
+                    ev += 3;
+                    let ok = matches!(rg, Ok(Err(Error::Argument)))
+                        && matches!(rp, Ok(Err(Error::Argument)))
+                        && st.as_ref().is_ok_and(|s| s.free_frames == 0 && s.free_huge == 0 && s.free_trees == 0)
+                        && bufs.snapshot() == base;
+                    if !ok {
+                        col.lock().unwrap().add(
+                            Violation::new(
+                                "C08",
+                                "zone wrapper does not reject a frame below its offset",
+                                format!("offset {offset} frame {f} order {order}: get {:?} put {:?}", rg.map(|r| r.map(|x| x.0.0)), rp),
+                            ),
+                            || json!({"engine": "dom", "check": "C08-zone", "offset": offset, "frame": f, "order": order}),
+                        );
+                    }
+                }
+            }
+            // misaligned zone offset is an initialization error
+            evals.fetch_add(ev, Ordering::Relaxed);
+            invalid_calls.fetch_add(ev, Ordering::Relaxed);
+        }
+    }
+
+    // ---- bad metadata buffers
+    {
+        let mut ev = 0u64;
+        for spec in [ClassingSpec::simple(1), ClassingSpec::movable(2)] {
+            let classing = spec.build();
+            for n in [HUGE_FRAMES, TREE_FRAMES + 5, 3 * TREE_FRAMES] {
+                let ms = LLFree::metadata_size(&classing, n);
+                let sizes = [ms.local, ms.trees, ms.lower];
+                // one arena, large enough for three buffers with slack
+                let arena = GuardBuf::new(2 * (sizes[0] + sizes[1] + sizes[2]) + 4096, false);
+                let ptr = arena.ptr as usize;
+                // good layout: consecutive, 64 aligned
+                let good = [ptr, ptr + sizes[0].next_multiple_of(64) + 64, ptr + (sizes[0] + sizes[1]).next_multiple_of(64) + 256];
+                let mk = |starts: [usize; 3], lens: [usize; 3]| -> Result<llfree::Result<()>, String> {
+                    let meta = unsafe {
+                        MetaData {
+                            local: std::slice::from_raw_parts_mut(starts[0] as *mut u8, lens[0]),
+                            trees: std::slice::from_raw_parts_mut(starts[1] as *mut u8, lens[1]),
+                            lower: std::slice::from_raw_parts_mut(starts[2] as *mut u8, lens[2]),
+                        }
+                    };
+                    crate::common::catch(|| LLFree::new(n, Init::FreeAll, &classing, meta).map(|_| ()))
+                };
+                let mut expect_init_err = |what: String, starts: [usize; 3], lens: [usize; 3]| {
+                    ev += 1;
+                    let r = mk(starts, lens);
+                    if !matches!(r, Ok(Err(Error::Initialization))) {
+                        col.lock().unwrap().add(
+                            Violation::new(
+                                "C08",
+                                "construction with bad metadata buffers did not return an initialization error",
+                                format!("{} frames={n}: {what}: {:?}", spec.name, r),
+                            ),
+                            || json!({"engine": "dom", "check": "C08-meta", "frames": n, "classing": spec.json(), "what": what}),
+                        );
+                    }
+                };
+                // sanity: the good layout works
+                if !matches!(mk(good, sizes), Ok(Ok(()))) {
+                    panic!("MACHINERY: good metadata layout rejected");
+                }
+                for b in 0..3 {
+                    if sizes[b] > 0 {
+                        let mut lens = sizes;
+                        lens[b] -= 1;
+                        expect_init_err(format!("buffer {b} one byte short"), good, lens);
+                    }
+                    for shift in (1..64).step_by(if thorough { 1 } else { 7 }) {
+                        let mut starts = good;
+                        starts[b] += shift;
+                        expect_init_err(format!("buffer {b} shifted by {shift} bytes"), starts, sizes);
+                    }
+                    for o in 0..3 {
+                        if o == b || sizes[b] == 0 || sizes[o] == 0 {
+                            continue;
+                        }
+                        // b overlaps o: by one aligned chunk at o's end, fully, nested
+                        let mut starts = good;
+                        starts[b] = (good[o] + sizes[o] - 1) & !63;
+                        expect_init_err(format!("buffer {b} overlaps the end of buffer {o}"), starts, sizes);
+                        let mut starts = good;
+                        starts[b] = good[o];
+                        expect_init_err(format!("buffer {b} starts at buffer {o}"), starts, sizes);
+                        if sizes[o] > 128 {
+                            let mut starts = good;
+                            let mut lens = sizes;
+                            // nested: o is enlarged so that b lies strictly inside it
+                            starts[o] = good[b].saturating_sub(64) & !63;
+                            lens[o] = sizes[b] + sizes[o] + 256;
+                            expect_init_err(format!("buffer {b} nested inside buffer {o}"), starts, lens);
+                        }
+                    }
+                }
+            }
+        }
+        evals.fetch_add(ev, Ordering::Relaxed);
+        invalid_calls.fetch_add(ev, Ordering::Relaxed);
+    }
+    dom_finish(
+        "C08",
+        tier,
+        t0,
+        evals.load(Ordering::Relaxed),
+        invalid_calls.load(Ordering::Relaxed),
+        "states {fresh free-all, half used with a reservation, allocate-all} x 4 classings x frame counts; orders 0..=TREE_ORDER+3 x boundary frames (0,1,2^o-1,2^o,last-1,last,n-2^o,n-2^o+1,n,n+1,end of last tree, misaligned by 1, 2^o/2, 2^o-1 and by every 1..2^o-1 for o<=4) x classes 0..7 x slot {none,0} x {get, get targeted, put}; only calls that are invalid by the stated rule are issued: each must return Err(Argument) and leave all three buffers byte-identical. Zone wrapper: frames below offsets {1,3,2^20 trees}. Metadata: each buffer one byte short, shifted by 1..63 bytes, overlapping another (end, same start, nested). distinct_nontrivial = number of invalid calls issued",
+        vec![json!({"op": "put(2047,o1,C0,s-)", "frames": TREE_FRAMES, "expected": "Err(Argument), no change"})],
+        json!({}),
+        vec![],
+        col.into_inner().unwrap(),
+        out,
+    )
+}
